@@ -63,6 +63,15 @@ def obligation_name(step, f):
     return '%s :: %s at generated line %s' % (step['unit'], f['message'], f.get('line'))
 
 
+def harness_ok_for(h, pid):
+    """a paired harness confirms property pid when it ran to completion and none of its failed checks concerns pid
+    (checks carry [Cxx] tags; an untagged failed check -- a panic in the real code -- concerns every property)"""
+    if h.get('result') == 'SUCCESSFUL':
+        return True
+    ft = h.get('failed_tags') or ['*']
+    return h.get('result') == 'FAILED' and pid not in ft and '*' not in ft and not any(t.startswith('B') for t in ft)
+
+
 def lemma_level(v):
     """failures inside theorem / lemma / link-client text (prelude blocks) or in contracts without a Kani counterpart
     (constants, predicates proved only by Verus) are never downgraded"""
@@ -157,7 +166,7 @@ def main():
         for v in violations:
             owners = [c['owner'] for c in v['failure'].get('clauses', [])]
             cover = [h for h in paired if any(cv in o for cv in h.get('covers', []) for o in owners)]
-            if v['step']['kind'] == 'verus' and owners and cover and all(h.get('result') == 'SUCCESSFUL' for h in cover) and not lemma_level(v):
+            if v['step']['kind'] == 'verus' and owners and cover and all(harness_ok_for(h, pid) for h in cover) and not lemma_level(v):
                 v['name'] += '  [not confirmed: the %d paired Kani harnesses covering this function verify on the real code]' % len(cover)
                 undecided.append(v)
             else:
